@@ -12,9 +12,12 @@ import (
 	"berty.tech/go-ipfs-log/internal/vx"
 	"berty.tech/go-ipfs-log/io/cbor"
 	"berty.tech/go-ipfs-log/io/jsonable"
+	pbio "berty.tech/go-ipfs-log/io/pb"
 	"encoding/base64"
+	"encoding/json"
 	"github.com/ipfs/go-cid"
 	"github.com/ipfs/go-ipld-cbor/encoding"
+	dag "github.com/ipfs/go-merkledag"
 	"github.com/polydawn/refmt/obj/atlas"
 )
 
@@ -298,3 +301,59 @@ func H_C12_stored() {
 var _ = register("H_C12_stored", H_C12_stored)
 var _ = register("H_C12_v2", H_C12_v2)
 var _ = register("H_C12_v0", H_C12_v0)
+
+// H_C12_pb: the legacy dag-pb codec on blocks whose JSON document is not an entry / manifest object at all
+// (null, an empty object, a list, a string, a number): decoding returns an error or a usable value, never nil
+// without an error, and nothing panics - also when such a block is met while loading a log.
+func H_C12_pb() {
+	ids, _ := realIdentities("userA")
+	api := newMemAPI()
+	io, err := pbio.IO(&entry.Entry{}, &entry.LamportClock{})
+	if err != nil {
+		panic(err)
+	}
+	var doc interface{}
+	switch vx.Choice("doc", 5) {
+	case 0:
+		doc = nil
+		vx.Sig("doc=null")
+	case 1:
+		doc = map[string]interface{}{}
+		vx.Sig("doc={}")
+	case 2:
+		doc = []interface{}{}
+		vx.Sig("doc=[]")
+	case 3:
+		doc = "text"
+		vx.Sig("doc=string")
+	case 4:
+		doc = 7
+		vx.Sig("doc=number")
+	}
+	data, err := json.Marshal(doc)
+	if err != nil {
+		panic(err)
+	}
+	nd := &dag.ProtoNode{}
+	nd.SetData(data)
+	if err := api.Dag().Add(ctx, nd); err != nil {
+		panic(err)
+	}
+	e, derr := io.DecodeRawEntry(nd, nd.Cid(), ids[0].Provider)
+	vx.Assert("C12", derr != nil || e != nil, "decoding an untrusted legacy block returns an error or an entry")
+	jl, jerr := io.DecodeRawJSONLog(nd)
+	vx.Assert("C12", jerr != nil || jl != nil, "decoding an untrusted legacy manifest returns an error or a manifest")
+	vx.Cover("pb-decoded")
+	// met while loading: as a manifest, and as an entry hash
+	N, lerr := ipfslog.NewFromMultihash(ctx, api, ids[0], nd.Cid(), &ipfslog.LogOptions{ID: "X", IO: io}, &ipfslog.FetchOptions{})
+	if lerr == nil && N != nil {
+		_ = N.Values().Len()
+	}
+	M, merr := ipfslog.NewFromEntryHash(ctx, api, ids[0], nd.Cid(), &ipfslog.LogOptions{ID: "X", IO: io}, &ipfslog.FetchOptions{})
+	if merr == nil && M != nil {
+		_ = M.Values().Len()
+	}
+	vx.Cover("pb-loaded")
+}
+
+var _ = register("H_C12_pb", H_C12_pb)
